@@ -138,6 +138,14 @@ def observe_file_api(case) -> dict:
             program = Program()
             for k, v in (case.get("defines") or {}).items():
                 program.resolver.current_scope.add_symbol(k, v)
+            events = []
+            from a816 import symbols as _sym
+            orig_add_label = _sym.Scope.add_label
+
+            def add_label_spy(self, label, value):
+                events.append((self, label, value.logical_value))
+                return orig_add_label(self, label, value)
+            _sym.Scope.add_label = add_label_spy
             try:
                 with contextlib.redirect_stdout(io.StringIO()), contextlib.redirect_stderr(io.StringIO()):
                     if case.get("format", "ips") == "ips":
@@ -151,12 +159,25 @@ def observe_file_api(case) -> dict:
                 if code == 0 and case.get("symfile"):
                     program.exports_symbol_file("out.sym")
                     out["sym"] = parse_symfile(Path("out.sym").read_text())
+                    # the label definitions actually made, grouped by scope in creation order, loop iterations left out;
+                    # a name defined twice in one scope keeps its place and takes the last value
+                    scopes = program.resolver.scopes
+                    per_scope: dict[int, dict[str, int]] = {}
+                    for sc, name, value in events:
+                        if type(sc).__name__ == "InternalScope":
+                            continue
+                        per_scope.setdefault(scopes.index(sc), {})[name] = value
+                    out["labeldefs"] = [[(v >> 16) & 0xFF, v & 0xFFFF, n] for i in sorted(per_scope) for n, v in per_scope[i].items()]
             except Exception as e:
                 if type(e).__name__ == "Timeout":
                     raise
                 out = {"raise": exc_kind(e), "msg": f"{type(e).__name__}: {e}"[:200],
                        "announced": any("Success" in m for m in cap.messages)}
     finally:
+        try:
+            _sym.Scope.add_label = orig_add_label
+        except NameError:
+            pass
         for lg in loggers:
             lg.removeHandler(cap)
         logging.disable(logging.CRITICAL)
@@ -305,11 +326,15 @@ def coq_term(case, ob):
     api = ob.get("api")
     if api and api.get("sym") is not None:
         sym = "(Some " + C.clist(api["sym"], lambda x: f"({C.z(x[0])}, {C.z(x[1])}, {C.cstr(x[2])})") + ")"
+    defs = "None"
+    if api and api.get("labeldefs") is not None:
+        defs = "(Some " + C.clist(api["labeldefs"], lambda x: f"({C.z(x[0])}, {C.z(x[1])}, {C.cstr(x[2])})") + ")"
     fmt = "FIps" if case.get("format", "ips") == "ips" else "FSfc"
     term = (f"{{| ec_files := {files_term(case)}; ec_config := {config_term(case)}; "
             f"ec_name := {C.cstr(case.get('fname', FNAME))}; ec_src := {C.cstr(case['src'])}; ec_impl := {impl}; "
             f"ec_format := {fmt}; ec_copier := {C.cbool(bool(case.get('copier')))}; "
-            f"ec_api := {front_term(api)}; ec_cli := {front_term(ob.get('cli'))}; ec_symfile := {sym} |}}")
+            f"ec_api := {front_term(api)}; ec_cli := {front_term(ob.get('cli'))}; ec_symfile := {sym}; "
+            f"ec_labeldefs := {defs} |}}")
     return f"({term}, {spec_term(case, ob)}, {C.cbool(case.get('corr', True))})"
 
 
